@@ -333,20 +333,40 @@ def run_sm(pid, tier, seed, replay, t0, extra_cov=None, extra_viol=0, extra_rc=0
     if drift:
         print("SPEC-DRIFT property=%s behaviours=%d of %d (the code no longer follows the design model; first: %s)" % (
             pid, drift, len(pred), json.dumps(drift_samples[0])[:400]))
+    # implementation -> spec, against the design model itself: the recorded runs of the random scripts must be
+    # behaviours of Omaha.tla (TraceOmaha.tla binds every environment choice to the log).  A run the model cannot
+    # follow, or follows with different field values, is drift as well (reported, never a verdict).
+    tv = {"validated": 0, "skipped": {}, "rejected": [], "drift": [], "runs": 0, "lines": 0, "stats": {}}
+    if not replay:
+        import tracecheck
+        rnd = [s_ for s_ in scs if not s_["id"].startswith("tlc-")]
+        tv = tracecheck.validate(rnd, log_path, wd, name="trace." + pid, prop=pid, max_runs=300 if tier == "quick" else None)
+        bad = len(tv["rejected"]) + len(tv["drift"])
+        if bad:
+            first_bad = (tv["rejected"] + tv["drift"])[0]
+            print("SPEC-DRIFT property=%s recorded-runs=%d of %d are not behaviours of the design model (first: %s)" % (
+                pid, bad, tv["runs"], json.dumps(first_bad)[:400]))
+            drift += bad
+            drift_samples.extend((tv["rejected"] + tv["drift"])[:2])
     rc = vlib.report(pid, viols)
     cov = {
         "states": dstats["states"] + mstats.get("states", 0), "transitions": dstats["transitions"] + mstats.get("transitions", 0),
         "design_model_runs": dstats["runs"],
         "traces_validated_against_impl": len(spans),
         "behaviours_replayed_from_model": len(pred), "spec_drift": drift, "drift_samples": drift_samples,
+        "recorded_runs_accepted_by_design_model": tv["validated"], "recorded_runs_offered_to_design_model": tv["runs"],
+        "recorded_lines_offered_to_design_model": tv["lines"], "recorded_runs_outside_design_model": tv["skipped"],
+        "trace_validation_states": tv["stats"].get("states", 0),
         "samples": samples or [{"note": "no scenario touched this property's projection"}],
         "evaluations": len(spans), "distinct_nontrivial": len(nontrivial),
         "rule": "TLC-enumerated behaviours of the design model (Omaha.tla, configurations in design_model_runs) replayed as "
                 "environment scripts through the real state machine, plus seeded random scripts (answers of every embedder "
-                "trait + stimuli at blocking points); every recorded log is monitored by Mon.tla; non-trivial = the recorded "
+                "trait + stimuli at blocking points); every recorded log is monitored by Mon.tla, and the recorded runs of "
+                "the random scripts that stay within the design model's vocabulary are validated against Omaha.tla itself "
+                "(TraceOmaha.tla: environment choices bound to the log, every field of every line compared); non-trivial = the recorded "
                 "log matches /%s/; distinct = distinct logs modulo clock stamps" % SM_PROPS[pid][1],
         "log_lines_monitored": n_lines, "situations_observed": dict(sorted(situ.items())),
-        "checker_cmd": "tlc MCOmaha.tla (INVARIANT Inv_%s) ; tlc Mon.tla (PROP=%s) over the recorded ndjson log" % (pid, pid),
+        "checker_cmd": "tlc MCOmaha.tla (INVARIANT Inv_%s) ; tlc Mon.tla (PROP=%s) over the recorded ndjson log ; tlc TraceOmaha.tla (TRACE=recorded log)" % (pid, pid),
         "exhaustive": False,
     }
     if extra_cov:
